@@ -220,6 +220,10 @@ def _trait(selfty, trait, tname, method, c):
             return mm
     if tname == "Hash" and method == "hash": return lambda I, a, fr, d: unit()
     if tname == "Default" and method == "default": return lambda I, a, fr, d: default_of(I, parse_ty(selfty), fr)
+    if tname == "TryFrom" and sp.endswith("RecoveryId"):
+        return lambda I, a, fr, d: colls.foreign_call(I, "rid_try_from", a, fr, d)
+    if tname in ("From", "Into") and ("RecoveryId" in selfty or "RecoveryId" in trait) and ("i32" in selfty or "i32" in trait):
+        return lambda I, a, fr, d: colls.foreign_call(I, "rid_to_i32", a, fr, d)
     if tname in ("TryFrom",) and method == "try_from":
         t = parse_ty(selfty)
         if t.kind == "int":
